@@ -50,6 +50,11 @@ def fn_doc(rng):
             lines += ['TABLE', '  TR', '    TC'] + para(3) + ['    TC'] + para(3)
         elif k < 0.7:
             lines += block(0)
+        elif k < 0.78:
+            # a list whose wrap-up line has a reference and its own block, after an item holding a stray block with the same marker
+            m = rng.choice(marks)
+            lines += ['ITEMS'] + (['  ' + w.some(1) + ref()] if rng.random() < 0.3 else []) + ['  ITEM 1', '    ' + w.some(2), '    FOOTNOTE ' + m, '      ' + w.some(1),
+                                '  ' + w.some(1) + '{{FOOTNOTE %s}}' % m, '  FOOTNOTE ' + m, '    ' + w.some(1)]
         else:
             lines += para(0)
     if rng.random() < 0.4:
